@@ -317,6 +317,19 @@ func checkC05(c *hx.Checker) {
 		lg.extra = []string{"large"}
 		jobs = append(jobs, convJob(lg))
 	}
+	// batch, channel and kernel counts 1..19 one at a time on a tiny geometry, 1-D and 2-D (work split over the counts:
+	// a kernel range handed to 4 workers without the remainder left channels 9..11 of 9..11 zero)
+	for n := 1; n <= 19; n++ {
+		for which := 0; which < 3; which++ {
+			t := []int{2, 2, 2}
+			t[which] = n
+			for _, bias := range []bool{false, true} {
+				c2 := convCfg{dt: ref.F32, x: []int{t[0], t[1], 3, 4}, w: []int{t[2], t[1], 2, 3}, bias: bias, a: ref.ConvAttrs{Pads: []int{1, 0, 0, 1}}, route: "op", extra: []string{"counts"}}
+				c1 := convCfg{dt: ref.F32, x: []int{t[0], t[1], 5}, w: []int{t[2], t[1], 2}, bias: bias, a: ref.ConvAttrs{Strides: []int{2}}, route: "op", extra: []string{"counts"}}
+				jobs = append(jobs, convJob(c2), convJob(c1))
+			}
+		}
+	}
 	// value patterns: taps that cancel exactly (zero results), all-equal operands
 	for _, fill := range []string{"cancel", "equal"} {
 		for _, cf := range []convCfg{
